@@ -39,7 +39,7 @@ the defect was found, `false` = the minimally repaired behaviour, which /repo co
 cf948b2; the diffs under /verif/pending_fixes were their proposals).
 The harness passes the flags that match the working tree (`# CODE VARIANT FLAGS` in
 harness/props/c06.py). -/
-structure Variant where
+structure StyleVariant where
   /-- F9 (property C14): `int('')` in `rgb(1,,2)` escapes as `ValueError`; repaired: `ColorParseError`. -/
   rgbValueError : Bool
   /-- F3: `__add__` stores the right operand's hash (style.py:655); repaired: hash of the new fields. -/
@@ -56,9 +56,9 @@ structure Variant where
 deriving Repr, BEq, DecidableEq
 
 /-- rich 9.10.0 as found. -/
-def Variant.old : Variant := ⟨true, true, true, true, true, true⟩
+def StyleVariant.old : StyleVariant := ⟨true, true, true, true, true, true⟩
 /-- All repairs applied. -/
-def Variant.fixed : Variant := ⟨false, false, false, false, false, false⟩
+def StyleVariant.fixed : StyleVariant := ⟨false, false, false, false, false, false⟩
 
 /-! ### Python `str` methods on ASCII text -/
 namespace AsciiStr
@@ -187,7 +187,7 @@ def ansiColorNumber (name : List Char) : Option Nat :=
 def numberType (n : Nat) : ColorType := if n < 16 then .standard else .eightBit
 
 /-- Body of `Color.parse` after `color = color.lower().strip()` (color.py:396-440). -/
-def Color.parseNorm (v : Variant) (color : List Char) : Except StyleErr Color :=
+def Color.parseNorm (v : StyleVariant) (color : List Char) : Except StyleErr Color :=
   if color == cl! "default" then .ok { name := color, type := .default }
   else match ansiColorNumber color with
   | some n => .ok { name := color, type := numberType n, number := some n }
@@ -215,7 +215,7 @@ def Color.parseNorm (v : Variant) (color : List Char) : Except StyleErr Color :=
       | _ => .error .colorParse
 
 /-- `Color.parse(color)` (color.py:389-440). -/
-def Color.parse (v : Variant) (color : List Char) : Except StyleErr Color :=
+def Color.parse (v : StyleVariant) (color : List Char) : Except StyleErr Color :=
   Color.parseNorm v (strip (lower color))
 
 end RichModel
